@@ -6,6 +6,8 @@
 import PySpikeVerif.Model.Api
 import PySpikeVerif.Model.Pyx
 import PySpikeVerif.Model.TextIO
+import PySpikeVerif.Model.Extra
+import PySpikeVerif.Spec.IsiList
 import PySpikeVerif.Spec.Sync
 import PySpikeVerif.Spec.Spike
 open PySpike
@@ -119,7 +121,24 @@ def handleApi (op : String) (f : List (List Q)) : String :=
     | _, _ => "bad-op"
   | _ => "bad-op"
 
+def chunkPwc : List (List Q) → List Pwc
+  | x :: y :: r => ⟨x, y⟩ :: chunkPwc r
+  | _ => []
+
+def chunkPwl : List (List Q) → List Pwl
+  | x :: y1 :: y2 :: r => ⟨x, y1, y2⟩ :: chunkPwl r
+  | _ => []
+
 def handle (op : String) (f : List (List Q)) : String :=
+  if op == "avg_pwc" then
+    match averagePwc (chunkPwc f) with
+    | some r => showFields [r.x, r.y]
+    | none => "reject"
+  else if op == "avg_pwl" then
+    match averagePwl (chunkPwl f) with
+    | some r => showFields [r.x, r.y1, r.y2]
+    | none => "reject"
+  else
   match op, f with
   | "isi_profile", [s1, s2, [ts, te, m]] =>
     if s1.isEmpty ∨ s2.isEmpty then "reject" else
@@ -198,6 +217,10 @@ def handle (op : String) (f : List (List Q)) : String :=
     let withC := if ncom = 0 then ls else Line.comment :: ls.flatMap (fun l => [l, Line.comment])
     let r := loadLines (toBool ign) withC
     showFields ([(r.length : Q)] :: r)
+  | "mul_pwc", [x, y, [c]] => let r := (Pwc.mk x y).mulScalar c; showFields [r.x, r.y]
+  | "mul_pwl", [x, y1, y2, [c]] => let r := (Pwl.mk x y1 y2).mulScalar c; showFields [r.x, r.y1, r.y2]
+  | "mul_disc", [x, y, mp, [c]] => showFields (unzip3 ((mkDisc x y mp).mulScalar c).e)
+  | "spec_isi_lengths", [s, [ts, te]] => showFields [isiListSpec s ts te]
   | "spec_spike", [s1, s2, [ts, te, m, ri]] =>
     if s1.isEmpty ∨ s2.isEmpty then "reject" else
     let xs := (isiProfile s1 s2 ts te 0).1
